@@ -30,8 +30,8 @@ func init() {
 func init() {
 	props["C07"] = propSpec{
 		level: "exploration",
-		rule: "deadlock-at-quiescence scenarios, one at a time per process: container (Queue / Deque, seeded valid options) in state {empty, one, several, full}; 0-4 blocking operations (Queue.Wait, BlockingAdd, Distributor.Receive; " +
-			"Deque.WaitFront/WaitBack/WaitPushFront/WaitPushBack, Distributor Send/Receive; at most one waiter per Deque condition variable) parked; then 1-5 stimulus steps {burst of pushes back-to-back, pops, pop racing push, cancel one waiter, Close, " +
+		rule: "deadlock-at-quiescence scenarios, one at a time per process: container (Queue / Deque, seeded valid options) in state {empty, one, several, full, filled exactly to the initial quota}; 1-4 blocking operations biased to the state (Queue.Wait, BlockingAdd, Distributor.Receive, an iterator parked at the tail; " +
+			"Deque.WaitFront/WaitBack/WaitPushFront/WaitPushBack, Distributor Send/Receive, blocking producers; at most one waiter per Deque condition variable) parked; then 1-6 stimulus steps {burst of pushes back-to-back, pops, push-then-pop, pop racing push, cancel one waiter, Close, " +
 			"a fresh call whose condition may already hold, settle} under GOMAXPROCS 1/2/4/16; verdict only at quiescence (two identical goroutine censuses, every goroutine parked, logical clock unchanged, no timers): an operation still parked although " +
 			"its context is cancelled / the container is closed / it is a consumer and Len()>0 / it is a producer and there is room (static capacity, or a fresh call of the same kind completes at once) is a violation; " +
 			"plus hook scenarios placing cancel / the enabling operation / Close exactly between predicate check and cond.Wait. distinct_nontrivial = distinct (container, options, initial state, parked operation kinds, GOMAXPROCS) in which >= 1 operation was observed parked before the stimulus",
